@@ -933,7 +933,19 @@ class WebSocketProtocol13(WebSocketProtocol):
             if ext[0] == "permessage-deflate" and self._compression_options is not None:
                 # TODO: negotiate parameters if compression_options
                 # specifies limits.
-                self._create_compressors("server", ext[1], self._compression_options)
+                try:
+                    self._create_compressors(
+                        "server", ext[1], self._compression_options
+                    )
+                except ValueError:
+                    # RFC 7692 section 5: an offer with an unknown parameter
+                    # or an invalid or unsupported value is declined (the
+                    # client may have listed a fallback offer); it is not a
+                    # reason to fail the whole handshake.
+                    gen_log.debug(
+                        "Declining permessage-deflate offer %r", ext[1], exc_info=True
+                    )
+                    continue
                 if (
                     "client_max_window_bits" in ext[1]
                     and ext[1]["client_max_window_bits"] is None
@@ -1034,15 +1046,19 @@ class WebSocketProtocol13(WebSocketProtocol):
             if key not in allowed_keys:
                 raise ValueError("unsupported compression parameter %r" % key)
         other_side = "client" if (side == "server") else "server"
-        self._compressor = _PerMessageDeflateCompressor(
+        # Build both objects before installing either, so that a ValueError
+        # from the second one does not leave compression half enabled.
+        compressor = _PerMessageDeflateCompressor(
             **self._get_compressor_options(side, agreed_parameters, compression_options)
         )
-        self._decompressor = _PerMessageDeflateDecompressor(
+        decompressor = _PerMessageDeflateDecompressor(
             max_message_size=self.params.max_message_size,
             **self._get_compressor_options(
                 other_side, agreed_parameters, compression_options
             ),
         )
+        self._compressor = compressor
+        self._decompressor = decompressor
 
     def _write_frame(
         self, fin: bool, opcode: int, data: bytes, flags: int = 0
